@@ -13,6 +13,16 @@ CHECKS = {
     technique='TLA+ spec BloscStream.tla: TLC exhaustive exploration of the decompress state machine under every chunking + TLC-enumerated chunkings replayed on the real decompress + TLC validation of hook traces (BloscTrace.tla)',
     text='TLC explores every way the environment can cut 11 frame sets into read chunks (incl. empty chunks) and proves alignment/accounting/final-state invariants of the reassembly state machine; three broken variants are rejected as positive controls; every chunking of streams up to 12 bytes is replayed on the real BloscCompressor.decompress (bytes, length, untouched tail, chunk-boundary state via hook); streams produced by the real compress() for all (n<=9, itemsize, block size) are checked against the writer spec, round-tripped under random chunkings, and their hook traces validated by TLC.',
     note='Blosc codec replaced by a shim (marker byte + raw bytes): only framing and reassembly are verified. asdf file layer not exercised. Small frame sets; longer streams sampled.'),
+ 'C07': dict(
+    design='DESIGN.md §5 C07',
+    technique='TLA+ spec TscStripes.tla: TLC sweep of the stripe-safety predicate over all accepted configurations + TLC interleaving model of the two-pass deposit; decisions and footprints observed on the real tsc_parallel judged by TLC (TscDecisions.tla); TLC-counterexample-shaped schedules replayed on the real kernel source',
+    text='TLC proves that every configuration accepted by the (transcribed) rule keeps same-pass stripes on disjoint rows (n1d<=48/96, nthread<=16/32, 8 sub-cell offsets, ties and closed stripe boundaries) and explores every interleaving of non-atomic read/write deposits for the narrowest accepted stripes (controls: 2-cell stripes and odd stripe counts lose updates). Every (n1d, nthread, npartition) decision is then observed on the real tsc_parallel via the tsc_config hook and judged by TLC; per-stripe row footprints recorded from the real partition_parallel/_tsc_scatter are checked for same-pass conflicts by TLC; adversarial schedules are replayed on the real _tsc_parallel source; compiled multi-thread results are compared bit-exactly with one thread on dyadic inputs.',
+    note='Lattice positions (1/4 cell) with both tie resolutions; float effects below the lattice are outside the model. Compiled races are not forced (probabilistic); forced schedules run the interpreted kernel source.'),
+ 'C17': dict(
+    design='DESIGN.md §5 C17',
+    technique='TLA+ spec Partition.tla: TLC interleaving model of histogram/prefix-sum/scatter + TLC-enumerated inputs replayed on the compiled partition_parallel + schedule replay on the real source',
+    text='TLC explores all interleavings of T<=3 workers over every input of length <=4/5 (lattice incl. stripe boundaries, duplicates, BoxSize) and proves no double write, in-bounds pointers, correct starts and a stripe-ordered permutation (three broken variants rejected). Every enumerated input is run through the compiled partition_parallel across coord x dtype x weights x sort x 1..16 threads and compared with the spec (starts, stripe members, weight alignment, input unchanged); a TLC-validated twin judges random inputs up to N=3000; conflict-directed and random schedules are replayed on the real source.',
+    note='Dyadic boxes make the stripe key exact; for non-dyadic boxes a particle on a stripe boundary is accepted in either neighbour.'),
 }
 NA = [
  dict(property_id='C18', reason='Pure real-valued geometry (square roots, sines, cross products) on a fixed finite domain of 65 340 codes: no state, order, schedule or index structure for a TLA+ transition system, and orthonormality/coverage are floating-point facts outside TLC integer arithmetic; an exhaustive numeric sweep would be a different technique (DESIGN.md §7).'),
